@@ -5,3 +5,4 @@ pub mod store;
 pub mod agenda;
 pub mod rete;
 pub mod fwd;
+pub mod bwd;
